@@ -565,3 +565,59 @@ package generator
 //@   ensures [C14,C20,C01] free-or-own-placeholder: result == "T" || !map_has(o.declsByName, result)
 //@   ensures [C14] base-name-when-free: (!map_has(o.declsByName, "T") ==> result == "T")
 //@   ensures [C14,C20,C01] never-a-finished-name: map_has(o.declsByName, "T") && o.declsByName["T"].Type != nil ==> result != "T"
+
+// ---- routing a schema id to its output file and package (C20) -----------------
+// Scenario generators hold concrete outputs (id=file:pkg) and mappings; maps are
+// iterated in both orders. An existing output is reused only if BOTH the file
+// name and the package agree; same file with another package is an error; else
+// a new output with exactly the requested file name and package is created and
+// registered under the id.
+//@ spec out_file(o) = o.file.FileName
+//@ spec out_pkg(o) = o.file.Package.QualifiedName
+//@ func (*Generator).beginOutput
+//@   props C20 C12
+//@   option both-map-orders
+//@   option noframe
+//@   shape g = gen() | gen(s1=a.go:p1) | gen(s1=a.go:p1;s2=b.go:p1) | gen(s1=a.go:p1;s2=b.go:p2) | gen(s1=b.go:p2;s2=a.go:p1)
+//@   shape id = "new"
+//@   shape outputName = "a.go" | "c.go"
+//@   shape packageName = "" | "p1" | "p3"
+//@   ensures [C20] needs-a-package: packageName == "" ==> result1 != nil
+//@   ensures [C20] result-is-for-this-file-and-package: result1 == nil ==> out_file(result0) == outputName && out_pkg(result0) == packageName
+//@   ensures [C20] same-file-other-package-is-an-error: packageName != "" && outputName == "a.go" && packageName != "p1" && map_has(g.outputs, "s1") && out_file(g.outputs["s1"]) == "a.go" ==> result1 != nil
+//@   ensures [C20] reuse-only-on-full-match: result1 == nil && outputName == "a.go" && packageName == "p1" && map_has(g.outputs, "s1") && out_file(g.outputs["s1"]) == "a.go" ==> result0 == g.outputs["s1"] && !map_has(g.outputs, "new")
+//@   ensures [C20] otherwise-registered-under-the-id: result1 == nil && !(outputName == "a.go" && packageName == "p1" && map_has(g.outputs, "s1")) ==> map_has(g.outputs, "new") && g.outputs["new"] == result0
+
+//@ func (*Generator).findOutputFileForSchemaID
+//@   props C20
+//@   option both-map-orders
+//@   option noframe
+//@   option inline (*Generator).beginOutput
+//@   shape g = gen(s1=a.go:p1) | gen(s1=a.go:p1;map:s2=p2,b.go,) | gen(map:s2=p2,b.go,;map:s3=p3,c.go,) | gen()
+//@   shape id = "s1" | "s2" | "s9"
+//@   ensures [C20] known-id-keeps-its-output: old(map_has(g.outputs, "s1")) && id == "s1" ==> result1 == nil && result0 == old(g.outputs["s1"])
+//@   ensures [C20] mapped-id-goes-to-its-mapping: id == "s2" && len(g.config.SchemaMappings) >= 1 && g.config.SchemaMappings[len(g.config.SchemaMappings) - 1].SchemaID == "s2" && result1 == nil ==> out_file(result0) == "b.go" && out_pkg(result0) == "p2"
+//@   ensures [C20] unmapped-id-goes-to-the-defaults: id == "s9" && result1 == nil ==> out_file(result0) == "default.go" && out_pkg(result0) == "defpkg"
+
+// ---- enums (generateEnumType) --------------------------------------------------
+// The generated unmarshaler decodes into `var v <carrier>` and accepts the value
+// iff reflect.DeepEqual(v, listed) for some listed value: that can only ever be
+// true if every listed value has exactly the carrier's Go type (C08). Mixed or
+// null-containing lists are wrapped (carrier interface{}). String enums get one
+// typed constant per listed value. An empty list is an error.
+//@ func (*schemaGenerator).generateEnumType
+//@   props C08 C18 C15
+//@   option inline PrimitiveTypeFromJSONSchemaType getMinIntType adjustForSignedBounds adjustForUnsignedBounds NormalizeBounds
+//@   option shape-zero t. scope.
+//@   option noframe
+//@   shape g = sgen()
+//@   shape t = new
+//@   shape t.Format = ""
+//@   shape t.Type = strs() | strs(string) | strs(integer) | strs(number) | strs(boolean)
+//@   shape t.Enum = emptyslice() | enumvals(string) | enumvals(string,string) | enumvals(float64,float64) | enumvals(bool,bool) | enumvals(string,float64) | enumvals(nil,string) | enumvals(object)
+//@   assigns nothing
+//@   ensures [C08,C18] empty-list-fails: len(t.Enum) == 0 ==> result1 != nil
+//@   ensures [C08] values-have-the-carrier-type: result1 == nil && old(enum_consistent(t.Type, t.Enum)) ==> values_have_type(t.Enum, enum_carrier(result0.Decl.Type))
+//@   ensures [C08] constants-for-string-values: result1 == nil && old(enum_consistent(t.Type, t.Enum)) && enum_carrier(result0.Decl.Type) == "string" ==> count_decls(g.output.file.Package.Decls, "*codegen.Constant") >= 1 && (len(t.Enum) == 1 ==> count_decls(g.output.file.Package.Decls, "*codegen.Constant") == 1)
+//@   ensures [C08] no-constants-otherwise: result1 == nil && enum_carrier(result0.Decl.Type) != "string" ==> count_decls(g.output.file.Package.Decls, "*codegen.Constant") == 0
+//@   ensures [C08,C16] only-models-adds-no-code: result1 == nil && g.config.OnlyModels ==> count_decls(g.output.file.Package.Decls, "*codegen.Var") == 0 && count_decls(g.output.file.Package.Decls, "*codegen.Method") == 0 && len(g.output.file.Package.Imports) == 0
